@@ -68,7 +68,10 @@ LEVEL_TEXT = ('Machine-checked theorems for every request sequence, every mounti
               'to the client of that request (C16_variant_acceptable_history); the filemap never changes an answer.  Configuration time: '
               'for every form of root_dir / path (absolute, pkg:dir, relative to package_name= or to the creating package) and both ways of '
               'creating the view, the root of the instance the code builds is the designated directory, and containment / conformance hold '
-              'against it (C16_configured_root, C16_containment_configured, C16_serves_designated_configured).  Ten functions of static.py and traversal.split_path_info are '
+              'against it (C16_configured_root, C16_containment_configured, C16_serves_designated_configured), also end to end for the '
+              'regenerated program: written configuration -> gen_init -> gen_call (C16_gen_end_to_end_contained / _conform); with an '
+              'X-VHM-ROOT header starting with the bare selector @@ the specification is silent but every access stays inside the root '
+              '(C16_vroot_override_contained).  Ten functions of static.py and traversal.split_path_info are '
               'translated from the current source on every run and proved equal to the reference model (C16_gen_*_is_model), '
               'and the property theorems are restated about the regenerated program (C16_gen_call_contained / _conform / '
               '_transparent, C16_gen_secure_path_spec).  The remaining tie is regenerated constants, shape pins of the '
